@@ -401,6 +401,32 @@ func (w *world) execOp(ti, oi int, op *proto.Op, st *opState) {
 		st.res.OK = true
 		st.res.Info = fmt.Sprintf("%016x", fp.Hash(m))
 
+	case proto.OpResolveInPlace:
+		m, err := w.module(op.Mod)
+		if err != nil {
+			st.res.Err = err.Error()
+			return
+		}
+		w.objs[op.Mod].busyBy = ti
+		before := fp.Hash(m)
+		flatBefore := fp.Flatten(m)
+		consts := ir.PipelineConstants(constsToMap(op.Consts))
+		optBefore := fp.Hash(consts)
+		err = ir.ProcessOverrides(m, consts)
+		optCheck("PipelineConstants", consts, optBefore)
+		if err != nil {
+			st.res.Err = err.Error()
+			if fp.Hash(m) != before {
+				paths, details := fp.Diff(flatBefore, fp.Flatten(m), 12)
+				w.addViolation(proto.Violation{Class: "I-MUT", Task: ti, Op: oi, Kind: op.Kind, Object: w.objs[op.Mod].label, ObjID: -1000 - op.Mod,
+					Paths: paths, AtStep: simrt.Steps,
+					Detail: "a FAILED in-place resolution (" + err.Error() + ") left the caller's module altered: " + strings.Join(details, "; ")})
+			}
+			return
+		}
+		st.res.OK = true
+		st.res.Info = fmt.Sprintf("%016x", fp.Hash(m))
+
 	case proto.OpScribble:
 		if op.Target == nil || op.Target.Task >= len(w.ops) || op.Target.Op >= len(w.ops[op.Target.Task]) {
 			st.res.Err = "harness: bad scribble target"
